@@ -136,7 +136,7 @@ func (e *Engine) unitsFor(prop string, cfg *PropCfg) []*propUnit {
 	for _, k := range e.contracts.Order {
 		fs := e.contracts.Funcs[k]
 		relevant := hasProp(fs.Props, prop)
-		for _, cl := range append(append([]*Clause{}, fs.Ensures...), fs.Requires...) {
+		for _, cl := range append(append(append([]*Clause{}, fs.Ensures...), fs.Requires...), fs.Asserts...) {
 			if hasProp(cl.Props, prop) {
 				relevant = true
 			}
